@@ -21,6 +21,9 @@ import (
 //
 // (combinable with '+', e.g. "encfirst+rev").
 func applyVariant(variant string) {
+	if i := strings.LastIndex(variant, "@"); i >= 0 {
+		variant = variant[:i] // GOMAXPROCS is set through the environment by the parent
+	}
 	for _, v := range strings.Split(variant, "+") {
 		switch v {
 		case "rev":
@@ -50,6 +53,8 @@ func applyVariant(variant string) {
 		}
 	}
 }
+
+func init() { core.ApplyVariant = applyVariant }
 
 // variantChild wraps a property's Run function as a child body.
 func variantChild(prop, level string, run func(*core.Run)) func(args []string) int {
